@@ -251,6 +251,10 @@ def main(argv):
     for delta in (-2, -1, 0, 1, 2):
         for comp in ("none", "gzip"):
             runs.append({"n": 1 if delta % 2 == 0 else 2, "comp": comp, "spec": "1-", "delim": b"\t", "kind": "block-edge%+d" % delta, "naming": "prefix"})
+    # HISTORY: the output names already exist from an earlier run with longer files (shard must truncate
+    # them: CreateOrThrow opens with O_TRUNC).  A big plain run first, then the run under test.
+    for n, comp, kind in ((3, "none", "few"), (4, "gzip", "one"), (5, "bzip2", "empty"), (2, "none", "empty"), (6, "gzip", "few"), (3, "none", "some")):
+        runs.append({"n": n, "comp": comp, "spec": "1-", "delim": b"\t", "kind": kind, "naming": rng.choice(["prefix", "explicit"]), "history": True})
     # classes with a known open finding, kept apart
     runs.append({"n": 5, "comp": "none", "spec": "1-", "delim": b"\t", "kind": "cr", "naming": "prefix"})
     runs.append({"n": 7, "comp": "none", "spec": "1", "delim": b"\t", "kind": "trailing-delim", "naming": "prefix"})
@@ -280,15 +284,23 @@ def main(argv):
         else:
             names = ["o%d" % i for i in range(n)]
             args = ["-o"] + names
+        if r.get("history"):
+            # an earlier, bigger run into the same names, uncompressed
+            old_in = b"".join(b"old line %d with some padding to make the file long\n" % i for i in range(3000))
+            st0, _, _ = codeclog.run_tool_limited([repo_bin("shard"), "-c", "none"] + args, stdin=old_in, timeout=60, cwd=d, env=env)
+            if st0 != 0:
+                c.broken.append("history run of shard failed with status %s" % st0)
         argv_ = [repo_bin("shard"), "-f", spec, "-d", delim.decode(), "-c", comp] + args
         logp = os.path.join(d, "codec.log")
         renv = dict(env)
         if comp != "none":
             renv.update({"LD_PRELOAD": hx_bin("libvcodec.so"), "VCODEC_LOG": logp, "VCODEC_DATA": "0"})
         st, so, se = codeclog.run_tool_limited(argv_, stdin=data, timeout=60, cwd=d, env=renv)
-        bucket = "tool/n=%s/%s/%s/%s" % ("1" if n == 1 else "2-9" if n < 10 else "10-17", comp, r["kind"], r["naming"])
+        bucket = "tool/n=%s/%s/%s/%s%s" % ("1" if n == 1 else "2-9" if n < 10 else "10-17", comp, r["kind"], r["naming"], "/names-exist-from-a-bigger-run" if r.get("history") else "")
         c.count(("run", ri, n, comp, spec, data), bucket=bucket)
         how = "printf %%s '<input>' | shard -f %s -d '%s' -c %s %s" % (spec, delim.decode().replace("\t", "\\t"), comp, " ".join(args))
+        if r.get("history"):
+            how = "seq 3000 | sed 's/^/old line /' | shard -c none %s ; " % " ".join(args) + how
         rep = {"op": "shard", "n": n, "compression": comp, "fields": spec, "delim_hex": delim.hex(), "args": args,
                "input_hex": data.hex()[:6000], "input_len": len(data), "how": how, "status": st, "kind": r["kind"]}
         if len(c.cov["samples"]) < 4:
